@@ -592,3 +592,9 @@ CHECKS["C09"]["classes"] = CHECKS["C09"]["classes"] + ["hydrate-build-write-attr
 CHECKS["C05"]["classes"] = (CHECKS["C05"].get("classes") or []) + ["view-write-before-mount"]
 # C11 "without corrupting later updates": the consistency oracles on the surviving graph belong to C11 as well
 CHECKS["C11"]["classes"] = CHECKS["C11"]["classes"] + ["stale-value", "missed-run", "dirty-at-rest", "cleanup-missing", "cleanup-twice"]
+CHECKS["C04"]["partial"] = [{"theorem": "exactly-once for the cleanups of the whole SUBTREE when cleanups have side effects",
+    "missing": "proved for the cleanups registered on the disposed node when the disposal starts (arbitrary cleanups) and for the whole subtree when cleanups only read (disposeNode_spec); since repair D23 cleanups registered during the teardown run too (later rounds of the loop, Props/C04Orphans), but a general 'each exactly once' statement over the whole subtree for side-effecting cleanups is checked by the cleanup-twice/cleanup-missing oracles and the correspondence only"}]
+for _p in ["C01", "C02", "C03", "C04", "C10", "C11", "C16"]:
+    CHECKS[_p]["rule"] = CHECKS[_p].get("rule", "") + (" || later additions: two-generation programs with (reinit) in between (one program in 16, 60 families), cleanups that go back into their own scope "
+        "through a captured handle during a teardown, computations created inside a batch that read and write a signal, cleanups registering cleanups while the root goes away; "
+        "every read/write statement rotates through all equivalent API forms")
